@@ -9,6 +9,7 @@ nothing locked twice), so an ordering bug is reported from a single sequential e
 without waiting for a hang; a watchdog on every request is the search for hangs.
 -/
 import GoNfsd.Model.Locks
+import GoNfsd.Lemmas.LockSched
 
 namespace GoNfsd.Props.C06
 open GoNfsd.Model.Locks
@@ -111,5 +112,65 @@ theorem ascendingFrom_sound (fresh : List Nat) (n : Nat) (rest : List Ev) (held 
     slice produced it) is not. -/
 example : ascendingFrom [] [.acq 3, .acq 7, .acq 9, .acq 12, .commit, .rel 3, .rel 7, .rel 9, .rel 12] [] = true := by decide
 example : ascendingFrom [] [.acq 7, .acq 3, .acq 12, .acq 9] [] = false := by decide
+
+/-! ### the lock manager as a transition system, with abort-and-retry (M10c)
+
+The statements above are about one state.  These are about runs: transactions that acquire an
+ascending plan lock by lock, give up whenever they like, and restart with a new plan — within a
+fixed budget of their own (RENAME over an existing target: one) or charged to a transaction that
+finished since they last started (`getShrink`, `getAlloc`, a failed `validateRename`). -/
+section sched
+open GoNfsd.Model.LockSched
+
+/-- No request retries indefinitely, none runs for ever: EVERY schedule — whatever the
+    interleaving, however often and with whatever plans transactions restart — has at most
+    `mu L s` steps; the measure is explicit (`retry_bounded_explicit`). -/
+theorem retry_bounded (L : Nat) (s s' : Sys) (sched : List (Nat × Act)) (h : run L s sched = some s') :
+    sched.length + mu L s' ≤ mu L s := run_mu L sched s s' h
+
+/-- `N` requests, each with at most `F` restarts on its own account and plans of at most `L` locks,
+    are over after at most `N · ((N + F)(L + 1) + L + 1)` steps — in particular no transaction
+    restarts more often than that. -/
+theorem retry_bounded_explicit (L F : Nat) (s s' : Sys) (sched : List (Nat × Act))
+    (hs : ∀ t ∈ s.txs, t.free ≤ F ∧ t.todo.length ≤ L) (h : run L s sched = some s') :
+    sched.length ≤ s.txs.length * ((cap s + F) * (L + 1) + L + 1) :=
+  Nat.le_trans (by have := run_mu L sched s s' h; omega) (mu_le L F s hs)
+
+/-- The discipline is kept by every step (ascending plans, a finished transaction holds nothing). -/
+theorem discipline_is_kept (L : Nat) (s s' : Sys) (sched : List (Nat × Act)) (hi : Inv L s)
+    (h : run L s sched = some s') : Inv L s' := run_inv L sched s s' hi h
+
+/-- No run can stop early: in every state reached, while some transaction is unfinished, one of
+    them can take the very step it is waiting for (its next lock is free, or it has them all and
+    commits).  Together with `retry_bounded`: every maximal run ends, after boundedly many steps,
+    with every request answered. -/
+theorem no_run_stops_early (L : Nat) (s s' : Sys) (sched : List (Nat × Act)) (hi : Inv L s)
+    (h : run L s sched = some s')
+    (hstuck : ∀ i t, s'.txs[i]? = some t → t.fin = false → step L s' i (wanted t) = none) :
+    ∀ t ∈ s'.txs, t.fin = true := by
+  intro t ht
+  cases hf : t.fin with
+  | true => rfl
+  | false =>
+    obtain ⟨i, u, hu, huf, hstep⟩ := progress L s' (run_inv L sched s s' hi h) ⟨t, ht, hf⟩
+    rw [hstuck i u hu huf] at hstep
+    simp at hstep
+
+/-- Non-vacuity: two RENAMEs over the same four inodes (plans 3 7 9 12) and a LOOKUP of a child
+    numbered below its directory (plan 3 9, after one restart of its own) satisfy the discipline,
+    interleave, block each other, and all finish. -/
+def s0 : Sys :=
+  { txs := [⟨[], [3, 7, 9, 12], false, 0, 1⟩, ⟨[], [3, 7, 9, 12], false, 0, 1⟩, ⟨[], [9], false, 0, 1⟩], commits := 0 }
+
+example : Inv 4 s0 := by decide
+example : (step 4 s0 1 .acquire).isSome = true ∧
+    ((step 4 s0 0 .acquire).bind fun s => step 4 s 1 .acquire) = none := by decide   -- the second one blocks
+example : ((run 4 s0 [(2, .acquire), (2, .restart [3, 9]), (0, .acquire), (0, .acquire), (0, .acquire), (0, .acquire),
+      (0, .finish), (2, .acquire), (1, .restart [3, 7]), (2, .acquire), (2, .finish), (1, .acquire), (1, .acquire),
+      (1, .finish)]).map fun s => s.txs.all (·.fin)) = some true := by decide
+/-- ... and a restart that is neither within the budget nor charged to anybody is refused. -/
+example : ((step 4 s0 2 (.restart [3, 9])).bind fun s => step 4 s 2 (.restart [3, 9])) = none := by decide
+
+end sched
 
 end GoNfsd.Props.C06
